@@ -95,8 +95,10 @@ def ni1(ctx):
                 bb = twin[0] if twin else b
             else:
                 bb = b
-            shape = b.ret_ty == 'std::result::Result<(), std::io::Error>' and not (may & {'WRITE', 'UNLINK', 'CREATE', 'SETLEN', 'SEEK', 'MEM', 'TRACK', 'OPENRW'})
-            ctx.check(shape, '%s:reads-policy' % b.path, where(b, pts[0]), 'policy state accessed in a consult-shaped body (io::Result<()>, only flush/fsync/clock effects)',
+            # no WAL / memory / tracker effect in a body that touches the policy state (its return type is
+            # constrained by NI5 for the bodies the mutating API calls)
+            shape = not (may & {'WRITE', 'UNLINK', 'CREATE', 'SETLEN', 'SEEK', 'MEM', 'TRACK', 'OPENRW'})
+            ctx.check(shape, '%s:reads-policy' % b.path, where(b, pts[0]), 'policy state accessed in a body with only flush/fsync/clock effects',
                       'the persist policy state is read in a body that also has WAL / memory effects or returns data (%s, effects %s): the policy could influence logical behaviour' % (b.ret_ty, sorted(may)))
     if n < 2:
         ctx.missing('accesses', 'expected the consult body and the constructor to access MultiRecordLog.next_persist')
